@@ -8,10 +8,14 @@ Local Open Scope Z_scope.
 Section act_induction.
   Variable P : act -> Prop.
   Hypothesis Hrec : forall a, P (ARec a).
+  Hypothesis Hnull : P ADlnull.
+  Hypothesis Hnone : P ADlnone.
   Hypothesis Hdl : forall base tab deps ctor, Forall P ctor -> P (ADlopen base tab deps ctor).
   Fixpoint act_ind' (x : act) : P x :=
     match x with
     | ARec a => Hrec a
+    | ADlnull => Hnull
+    | ADlnone => Hnone
     | ADlopen b t deps ctor =>
         Hdl b t deps ctor ((fix go (l : list act) : Forall P l :=
                               match l with
@@ -21,36 +25,44 @@ Section act_induction.
     end.
 End act_induction.
 
-Lemma run_act_dlopen : forall early fixed outer base tab deps ctor clk,
-  run_act early fixed outer (ADlopen base tab deps ctor) clk =
-  let stamp := dl_stamp fixed outer clk in
+Lemma run_act_dlopen : forall early fixed balanced base tab deps ctor st,
+  run_act early fixed balanced (ADlopen base tab deps ctor) st =
+  let '(s2, rs, ds) := run_acts early fixed balanced ctor (w_enter st) in
   if early
-  then let '(c2, rs, ds) := run_acts early fixed (Some stamp) ctor (clk + 1) in (c2, rs, ds ++ dl_msgs fixed stamp base tab deps)
-  else let '(c2, rs, ds) := run_acts early fixed (Some stamp) ctor clk in (c2 + 1, rs, ds ++ dl_msgs fixed c2 base tab deps).
+  then (w_leave s2, rs, ds ++ dl_msgs fixed (dl_stamp fixed st) base tab deps)
+  else (w_leave (mkW (w_clk s2 + 1) (w_depth s2) (w_start s2)), rs, ds ++ dl_msgs fixed (w_clk s2) base tab deps).
 Proof.
-  intros early fixed outer base tab deps ctor clk. cbn [run_act].
-  assert (E : forall st l c,
-    (fix go (l : list act) (c : Z) : rout :=
+  intros early fixed balanced base tab deps ctor st. cbn [run_act].
+  assert (E : forall l c,
+    (fix go (l : list act) (s : wst) : rout :=
        match l with
-       | [] => (c, [], [])
-       | y :: r => let '(c1, r1, d1) := run_act early fixed (Some st) y c in
-                   let '(c2, r2, d2) := go r c1 in (c2, r1 ++ r2, d1 ++ d2)
-       end) l c = run_acts early fixed (Some st) l c).
-  { intros st. induction l as [|y r IH]; intros c; [reflexivity|]. cbn [run_acts].
-    destruct (run_act early fixed (Some st) y c) as [[c1 r1] d1]. rewrite IH. reflexivity. }
-  cbv zeta. rewrite !E. reflexivity.
+       | [] => (s, [], [])
+       | y :: r => let '(s1, r1, d1) := run_act early fixed balanced y s in
+                   let '(s2, r2, d2) := go r s1 in (s2, r1 ++ r2, d1 ++ d2)
+       end) l c = run_acts early fixed balanced l c).
+  { induction l as [|y r IH]; intros c; [reflexivity|]. cbn [run_acts].
+    destruct (run_act early fixed balanced y c) as [[c1 r1] d1]. rewrite IH. reflexivity. }
+  rewrite E. reflexivity.
 Qed.
 
-(* the clock only moves forward; records lie between the clock value an action started with and
-   the one it ended with; DLOP time stamps are never later than the end and never earlier than the
-   entry time of the outermost dlopen in progress (or the start, outside any dlopen) *)
-Definition lower (outer : option Z) (clk : Z) : Z := match outer with Some t0 => t0 | None => clk end.
-Definition outer_ok (outer : option Z) (clk : Z) : Prop := match outer with Some t0 => t0 <= clk | None => True end.
+(* invariant of the wrapper state: inside a dlopen the recorded start is not in the future *)
+Definition w_ok (st : wst) : Prop := (0 < w_depth st)%nat -> w_start st <= w_clk st.
+Definition lower (st : wst) : Z := if Nat.eqb (w_depth st) 0 then w_clk st else w_start st.
 
-Definition bounded (outer : option Z) (clk : Z) (o : rout) : Prop :=
-  let '(c', recs, dls) := o in
-  clk <= c' /\ (forall t a, In (t, a) recs -> clk <= t < c') /\
-  (forall d, In d dls -> lower outer clk <= d_time d < c').
+(* what an action does to the state and where its outputs lie, for the balanced wrapper:
+   - dlopen_depth is back at its entry value, on EVERY path (load, NULL, nothing mapped, nested)
+   - inside a dlopen (depth > 0) dlopen_start is untouched
+   - the clock only moves forward; records lie between start and end clock
+   - DLOP time stamps are not later than the end and not earlier than the entry time of the
+     outermost dlopen in progress (or the start clock outside any dlopen) *)
+Definition well_behaved (st : wst) (o : rout) : Prop :=
+  let '(st', recs, dls) := o in
+  w_depth st' = w_depth st /\
+  ((0 < w_depth st)%nat -> w_start st' = w_start st) /\
+  w_clk st <= w_clk st' /\
+  (forall t a, In (t, a) recs -> w_clk st <= t < w_clk st') /\
+  (forall d, In d dls -> lower st <= d_time d < w_clk st') /\
+  w_ok st'.
 
 Lemma dl_msgs_time : forall fixed stamp base tab deps d, In d (dl_msgs fixed stamp base tab deps) -> d_time d = stamp.
 Proof.
@@ -58,119 +70,169 @@ Proof.
   apply in_map_iff in H. destruct H as (x & <- & _). reflexivity.
 Qed.
 
-Lemma run_acts_bounded : forall early fixed outer l,
-  Forall (fun x => forall outer clk, outer_ok outer clk -> bounded outer clk (run_act early fixed outer x clk)) l ->
-  forall clk, outer_ok outer clk -> bounded outer clk (run_acts early fixed outer l clk).
+Lemma run_acts_well_behaved : forall early fixed l,
+  Forall (fun x => forall st, w_ok st -> well_behaved st (run_act early fixed true x st)) l ->
+  forall st, w_ok st -> well_behaved st (run_acts early fixed true l st).
 Proof.
-  induction l as [|y r IH]; intros HF clk Ho.
-  - cbn. repeat split; try lia; intros; contradiction.
+  induction l as [|y r IH]; intros HF st Ho.
+  - cbn. repeat split; try lia; auto; intros; contradiction.
   - inversion HF as [|? ? Hy Hr]; subst. cbn [run_acts].
-    specialize (Hy outer clk Ho). destruct (run_act early fixed outer y clk) as [[c1 r1] d1].
-    cbn in Hy. destruct Hy as (A1 & A2 & A3).
-    assert (Ho1 : outer_ok outer c1) by (destruct outer; cbn in *; lia).
-    specialize (IH Hr c1 Ho1). destruct (run_acts early fixed outer r c1) as [[c2 r2] d2].
-    cbn in *. destruct IH as (B1 & B2 & B3).
-    split; [lia|]. split.
-    + intros t a H. apply in_app_or in H. destruct H as [H|H]; [specialize (A2 _ _ H) | specialize (B2 _ _ H)]; lia.
-    + intros d H. apply in_app_or in H. destruct H as [H|H]; [specialize (A3 _ H) | specialize (B3 _ H)];
-        destruct outer; cbn in *; lia.
+    specialize (Hy st Ho). destruct (run_act early fixed true y st) as [[s1 r1] d1].
+    cbn in Hy. destruct Hy as (A1 & A2 & A3 & A4 & A5 & A6).
+    specialize (IH Hr s1 A6). destruct (run_acts early fixed true r s1) as [[s2 r2] d2].
+    cbn in *. destruct IH as (B1 & B2 & B3 & B4 & B5 & B6).
+    split; [lia|]. split; [intros Hd; rewrite B2 by lia; auto|]. split; [lia|]. split; [|split; [|exact B6]].
+    + intros t a Hin. apply in_app_or in Hin. destruct Hin as [Hin|Hin]; [specialize (A4 _ _ Hin) | specialize (B4 _ _ Hin)]; lia.
+    + intros d Hin. apply in_app_or in Hin. destruct Hin as [Hin|Hin]; [specialize (A5 _ Hin); lia|].
+      specialize (B5 _ Hin). unfold lower in *. rewrite A1 in B5.
+      destruct (Nat.eqb (w_depth st) 0) eqn:E; [lia|].
+      rewrite A2 in B5 by (apply Nat.eqb_neq in E; lia). lia.
 Qed.
 
-Lemma run_act_bounded : forall early fixed x outer clk, outer_ok outer clk -> bounded outer clk (run_act early fixed outer x clk).
+Lemma enter_ok : forall st, w_ok st -> w_ok (w_enter st) /\ w_start (w_enter st) <= w_clk st /\
+                                       w_start (w_enter st) = lower st.
 Proof.
-  intros early fixed x. induction x as [a | base tab deps ctor IH] using act_ind'; intros outer clk Ho.
-  - cbn. split; [lia|]. split; [|intros d []].
-    intros t0 b [H|[]]. inversion H. lia.
-  - rewrite run_act_dlopen. cbv zeta.
-    assert (Hst : lower outer clk <= dl_stamp fixed outer clk <= clk).
-    { unfold dl_stamp, lower. destruct fixed, outer; cbn in *; lia. }
-    destruct early.
-    + assert (Ho' : outer_ok (Some (dl_stamp fixed outer clk)) (clk + 1)) by (cbn; lia).
-      pose proof (run_acts_bounded true fixed (Some (dl_stamp fixed outer clk)) ctor IH (clk + 1) Ho') as B.
-      destruct (run_acts true fixed (Some (dl_stamp fixed outer clk)) ctor (clk + 1)) as [[c2 rs] ds].
-      cbn in B. destruct B as (B1 & B2 & B3). cbn. split; [lia|]. split.
-      * intros t a H. specialize (B2 _ _ H). lia.
-      * intros d H. apply in_app_or in H. destruct H as [H|H]; [specialize (B3 _ H); lia|].
-        rewrite (dl_msgs_time _ _ _ _ _ _ H). lia.
-    + assert (Ho' : outer_ok (Some (dl_stamp fixed outer clk)) clk) by (cbn; lia).
-      pose proof (run_acts_bounded false fixed (Some (dl_stamp fixed outer clk)) ctor IH clk Ho') as B.
-      destruct (run_acts false fixed (Some (dl_stamp fixed outer clk)) ctor clk) as [[c2 rs] ds].
-      cbn in B. destruct B as (B1 & B2 & B3). cbn. split; [lia|]. split.
-      * intros t a H. specialize (B2 _ _ H). lia.
-      * intros d H. apply in_app_or in H. destruct H as [H|H]; [specialize (B3 _ H); lia|].
-        rewrite (dl_msgs_time _ _ _ _ _ _ H). lia.
+  intros st Ho. unfold w_ok, w_enter, lower in *. cbn.
+  destruct (Nat.eqb (w_depth st) 0) eqn:E.
+  - repeat split; intros; lia.
+  - apply Nat.eqb_neq in E. assert (w_start st <= w_clk st) by (apply Ho; lia). repeat split; intros; lia.
 Qed.
 
-Lemma run_acts_bounded' : forall early fixed outer l clk, outer_ok outer clk -> bounded outer clk (run_acts early fixed outer l clk).
+Lemma run_act_well_behaved : forall early fixed x st, w_ok st -> well_behaved st (run_act early fixed true x st).
 Proof.
-  intros. apply run_acts_bounded; auto. apply Forall_forall. intros x _ o c Hc. now apply run_act_bounded.
+  intros early fixed x. induction x as [a | | | base tab deps ctor IH] using act_ind'; intros st Ho.
+  - cbn. split; [reflexivity|]. split; [auto|]. split; [lia|]. split; [|split].
+    + intros t0 b [E|[]]. inversion E. lia.
+    + intros d [].
+    + unfold w_ok in *. cbn. intros Hd. specialize (Ho Hd). lia.
+  - (* dlopen(NULL): enter, leave *)
+    cbn. destruct (enter_ok st Ho) as (E1 & E2 & E3). unfold w_ok in *. cbn in *.
+    repeat split; try lia; auto; try (intros; contradiction);
+      try (intros Hd; destruct (Nat.eqb (w_depth st) 0) eqn:E; [apply Nat.eqb_eq in E; lia | try reflexivity; try (specialize (Ho Hd); lia)]).
+  - cbn. destruct (enter_ok st Ho) as (E1 & E2 & E3). unfold w_ok in *. cbn in *.
+    repeat split; try lia; auto; try (intros; contradiction);
+      try (intros Hd; destruct (Nat.eqb (w_depth st) 0) eqn:E; [apply Nat.eqb_eq in E; lia | try reflexivity; try (specialize (Ho Hd); lia)]).
+  - rewrite run_act_dlopen. destruct (enter_ok st Ho) as (E1 & E2 & E3).
+    pose proof (run_acts_well_behaved early fixed ctor IH (w_enter st) E1) as B.
+    destruct (run_acts early fixed true ctor (w_enter st)) as [[s2 rs] ds].
+    cbn in B. destruct B as (B1 & B2 & B3 & B4 & B5 & B6).
+    assert (Hs2 : w_start s2 = lower st) by (rewrite B2 by lia; exact E3).
+    assert (Hlow : lower (w_enter st) = lower st) by (unfold lower at 1; cbn; exact E3).
+    assert (Hstamp : lower st <= dl_stamp fixed st <= w_clk st).
+    { unfold dl_stamp, lower in *. destruct fixed; destruct (Nat.eqb (w_depth st) 0); cbn in *; lia. }
+    destruct early; cbn.
+    + split; [lia|]. split.
+      { intros Hd. rewrite Hs2. unfold lower. destruct (Nat.eqb (w_depth st) 0) eqn:E; [apply Nat.eqb_eq in E; lia | reflexivity]. }
+      split; [lia|]. split; [intros t a H; specialize (B4 _ _ H); lia|]. split.
+      * intros d H. apply in_app_or in H. destruct H as [H|H]; [specialize (B5 _ H); lia|].
+        rewrite (dl_msgs_time _ _ _ _ _ _ H). lia.
+      * unfold w_ok. cbn. intros Hd. rewrite Hs2. lia.
+    + split; [lia|]. split.
+      { intros Hd. rewrite Hs2. unfold lower. destruct (Nat.eqb (w_depth st) 0) eqn:E; [apply Nat.eqb_eq in E; lia | reflexivity]. }
+      split; [lia|]. split; [intros t a H; specialize (B4 _ _ H); lia|]. split.
+      * intros d H. apply in_app_or in H. destruct H as [H|H]; [specialize (B5 _ H); lia|].
+        rewrite (dl_msgs_time _ _ _ _ _ _ H). lia.
+      * unfold w_ok. cbn. intros Hd. rewrite Hs2. lia.
 Qed.
 
-(* the ordering invariant at ANY dlopen node (outermost or nested in a constructor), for the code
-   with the clock read first: the library AND (fixed code) every dependency mapped with it get a
-   DLOP message whose time stamp - the entry time of the outermost dlopen in progress - is earlier
-   than every record made while the library is being loaded *)
-Lemma load_precedes_ctor_records : forall fixed outer base tab deps ctor clk c' recs dls,
-  outer_ok outer clk ->
-  run_act true fixed outer (ADlopen base tab deps ctor) clk = (c', recs, dls) ->
-  let stamp := dl_stamp fixed outer clk in
+Lemma run_acts_well_behaved' : forall early fixed l st, w_ok st -> well_behaved st (run_acts early fixed true l st).
+Proof.
+  intros. apply run_acts_well_behaved; auto. apply Forall_forall. intros x _ s Hs. now apply run_act_well_behaved.
+Qed.
+
+(* dlopen_depth returns to its entry value on every path of the wrapper - whatever the thread does:
+   loads, dlopen(NULL), calls that map nothing, dlopen from constructors *)
+Lemma depth_balanced : forall early fixed l st, w_ok st ->
+  w_depth (fst (fst (run_acts early fixed true l st))) = w_depth st.
+Proof.
+  intros early fixed l st Ho. pose proof (run_acts_well_behaved' early fixed l st Ho) as B.
+  destruct (run_acts early fixed true l st) as [[s r] d]. cbn in *. tauto.
+Qed.
+
+(* the ordering invariant at ANY dlopen node (outermost or nested in a constructor, after any
+   number of dlopen(NULL) / empty calls), clock read first: the library AND (fixed code) every
+   dependency mapped with it get a DLOP message whose time stamp is earlier than every record made
+   while the library is being loaded; outside any dlopen (depth 0) the stamp is the call's own
+   entry time - never an older one *)
+Lemma load_precedes_ctor_records : forall fixed st base tab deps ctor st' recs dls,
+  w_ok st ->
+  run_act true fixed true (ADlopen base tab deps ctor) st = (st', recs, dls) ->
+  let stamp := dl_stamp fixed st in
   In (mkDl stamp base tab) dls /\
   (fixed = true -> forall d, In d deps -> In (mkDl stamp (fst d) (snd d)) dls) /\
-  (forall t a, In (t, a) recs -> stamp < t) /\ stamp <= clk < c'.
+  (forall t a, In (t, a) recs -> stamp < t) /\ stamp <= w_clk st /\
+  (w_depth st = 0%nat -> stamp = w_clk st).
 Proof.
-  intros fixed outer base tab deps ctor clk c' recs dls Ho H. rewrite run_act_dlopen in H. cbv zeta in *.
-  assert (Hst : dl_stamp fixed outer clk <= clk) by (unfold dl_stamp; destruct fixed, outer; cbn in *; lia).
-  assert (Ho' : outer_ok (Some (dl_stamp fixed outer clk)) (clk + 1)) by (cbn; lia).
-  pose proof (run_acts_bounded' true fixed (Some (dl_stamp fixed outer clk)) ctor (clk + 1) Ho') as B.
-  destruct (run_acts true fixed (Some (dl_stamp fixed outer clk)) ctor (clk + 1)) as [[c2 rs] ds].
-  inversion H; subst. cbn in B. destruct B as (B1 & B2 & B3).
+  intros fixed st base tab deps ctor st' recs dls Ho H. rewrite run_act_dlopen in H. cbv zeta.
+  destruct (enter_ok st Ho) as (E1 & E2 & E3).
+  pose proof (run_acts_well_behaved' true fixed ctor (w_enter st) E1) as B.
+  destruct (run_acts true fixed true ctor (w_enter st)) as [[s2 rs] ds]. inversion H; subst.
+  cbn in B. destruct B as (B1 & B2 & B3 & B4 & B5 & B6).
+  assert (Hstamp : dl_stamp fixed st <= w_clk st).
+  { unfold dl_stamp, lower in *. destruct fixed; destruct (Nat.eqb (w_depth st) 0); cbn in *; lia. }
   split; [apply in_or_app; right; now left|]. split.
   - intros -> d Hd. apply in_or_app. right. right. apply in_map_iff. exists d. auto.
-  - split; [|lia]. intros t a Hin. specialize (B2 _ _ Hin). lia.
+  - split; [|split; [exact Hstamp|]].
+    + intros t a Hin. specialize (B4 _ _ Hin). cbn in B4. lia.
+    + intros Hd. unfold dl_stamp. rewrite Hd. cbn. destruct fixed; reflexivity.
 Qed.
 
-(* ... and every record of the rest of the run as well *)
-Lemma load_precedes_all_records : forall fixed base tab deps ctor rest clk c' recs dls,
-  run_acts true fixed None (ADlopen base tab deps ctor :: rest) clk = (c', recs, dls) ->
-  In (mkDl clk base tab) dls /\
-  (fixed = true -> forall d, In d deps -> In (mkDl clk (fst d) (snd d)) dls) /\
-  (forall t a, In (t, a) recs -> clk < t).
+(* from the start of a thread (depth 0): the first load after any prefix of dlopen(NULL) / empty /
+   load calls is stamped with its OWN entry time, and all records from then on are later *)
+Lemma load_after_prefix : forall fixed pre base tab deps ctor rest clk s1 r1 d1 st' recs dls,
+  run_acts true fixed true pre (w0 clk) = (s1, r1, d1) ->
+  run_acts true fixed true (ADlopen base tab deps ctor :: rest) s1 = (st', recs, dls) ->
+  In (mkDl (w_clk s1) base tab) dls /\
+  (fixed = true -> forall d, In d deps -> In (mkDl (w_clk s1) (fst d) (snd d)) dls) /\
+  (forall t a, In (t, a) recs -> w_clk s1 < t) /\
+  (forall t a, In (t, a) r1 -> t < w_clk s1).
 Proof.
-  intros fixed base tab deps ctor rest clk c' recs dls H. cbn [run_acts] in H.
-  destruct (run_act true fixed None (ADlopen base tab deps ctor) clk) as [[c1 r1] d1] eqn:E1.
-  destruct (load_precedes_ctor_records fixed None base tab deps ctor clk c1 r1 d1 I E1) as (A1 & A2 & A3 & A4).
-  assert (Es : dl_stamp fixed None clk = clk) by (unfold dl_stamp; destruct fixed; reflexivity).
-  rewrite Es in *.
-  pose proof (run_acts_bounded' true fixed None rest c1 I) as B.
-  destruct (run_acts true fixed None rest c1) as [[c2 r2] d2]. inversion H; subst. cbn in B. destruct B as (B1 & B2 & B3).
-  split; [apply in_or_app; now left|]. split.
-  - intros Hf d Hd. apply in_or_app. left. auto.
-  - intros t a Hin. apply in_app_or in Hin. destruct Hin as [Hin|Hin]; [eauto|]. specialize (B2 _ _ Hin). lia.
+  intros fixed pre base tab deps ctor rest clk s1 r1 d1 st' recs dls Hpre H.
+  assert (Ho0 : w_ok (w0 clk)) by (unfold w_ok, w0; cbn; lia).
+  pose proof (run_acts_well_behaved' true fixed pre (w0 clk) Ho0) as Bp. rewrite Hpre in Bp.
+  cbn in Bp. destruct Bp as (P1 & _ & P3 & P4 & _ & P6).
+  cbn [run_acts] in H.
+  destruct (run_act true fixed true (ADlopen base tab deps ctor) s1) as [[s2 r2] d2] eqn:E1.
+  destruct (load_precedes_ctor_records fixed s1 base tab deps ctor s2 r2 d2 P6 E1) as (A1 & A2 & A3 & A4 & A5).
+  cbv zeta in *. rewrite (A5 P1) in *.
+  pose proof (run_act_well_behaved true fixed (ADlopen base tab deps ctor) s1 P6) as B1. rewrite E1 in B1.
+  cbn in B1. destruct B1 as (_ & _ & C3 & C4 & _ & C6).
+  pose proof (run_acts_well_behaved' true fixed rest s2 C6) as B.
+  destruct (run_acts true fixed true rest s2) as [[s3 r3] d3]. inversion H; subst.
+  cbn in B. destruct B as (_ & _ & _ & B4 & _).
+  split; [apply in_or_app; now left|]. split; [intros Hf d Hd; apply in_or_app; left; auto|]. split.
+  - intros t a Hin. apply in_app_or in Hin. destruct Hin as [Hin|Hin]; [eauto|].
+    specialize (B4 _ _ Hin). assert (w_clk s1 < w_clk s2); [|lia].
+    { rewrite run_act_dlopen in E1. destruct (run_acts true fixed true ctor (w_enter s1)) as [[q1 q2] q3] eqn:Eq.
+      pose proof (run_acts_well_behaved' true fixed ctor (w_enter s1) (proj1 (enter_ok s1 P6))) as Bq. rewrite Eq in Bq.
+      cbn in Bq. inversion E1; subst. cbn. lia. }
+  - intros t a Hin. specialize (P4 _ _ Hin). lia.
 Qed.
 
-(* the same for the wrapper AS BUILT: both flags are generated from the C text of libmcount/wrap.c
-   (mcount_gettime() called before real_dlopen()?  no name filter in dlopen_base_callback()?) *)
-Lemma load_precedes_ctor_records_as_built : forall outer base tab deps ctor clk c' recs dls,
-  outer_ok outer clk ->
-  run_act wrap_dlopen_clock_first wrap_dlopen_reports_all outer (ADlopen base tab deps ctor) clk = (c', recs, dls) ->
-  let stamp := match outer with Some t0 => t0 | None => clk end in
+(* the same for the wrapper AS BUILT: the three flags are generated from the C text of libmcount/wrap.c *)
+Lemma load_precedes_ctor_records_as_built : forall st base tab deps ctor st' recs dls,
+  w_ok st ->
+  run_act wrap_dlopen_clock_first wrap_dlopen_reports_all wrap_dlopen_depth_balanced (ADlopen base tab deps ctor) st = (st', recs, dls) ->
+  let stamp := if Nat.eqb (w_depth st) 0 then w_clk st else w_start st in
   In (mkDl stamp base tab) dls /\ (forall d, In d deps -> In (mkDl stamp (fst d) (snd d)) dls) /\
-  (forall t a, In (t, a) recs -> stamp < t).
+  (forall t a, In (t, a) recs -> stamp < t) /\ w_depth st' = w_depth st.
 Proof.
-  change wrap_dlopen_clock_first with true. change wrap_dlopen_reports_all with true.
-  intros outer base tab deps ctor clk c' recs dls Ho H.
-  destruct (load_precedes_ctor_records true outer base tab deps ctor clk c' recs dls Ho H) as (A & B & C & _).
-  cbn in *. repeat split; auto.
+  change wrap_dlopen_clock_first with true. change wrap_dlopen_reports_all with true. change wrap_dlopen_depth_balanced with true.
+  intros st base tab deps ctor st' recs dls Ho H.
+  destruct (load_precedes_ctor_records true st base tab deps ctor st' recs dls Ho H) as (A & B & C & _).
+  pose proof (run_act_well_behaved true true (ADlopen base tab deps ctor) st Ho) as W. rewrite H in W. cbn in W.
+  cbn in *. repeat split; auto. tauto.
 Qed.
 
-Lemma load_precedes_all_records_as_built : forall base tab deps ctor rest clk c' recs dls,
-  run_acts wrap_dlopen_clock_first wrap_dlopen_reports_all None (ADlopen base tab deps ctor :: rest) clk = (c', recs, dls) ->
-  In (mkDl clk base tab) dls /\ (forall d, In d deps -> In (mkDl clk (fst d) (snd d)) dls) /\
-  (forall t a, In (t, a) recs -> clk < t).
+Lemma load_after_prefix_as_built : forall pre base tab deps ctor rest clk s1 r1 d1 st' recs dls,
+  run_acts wrap_dlopen_clock_first wrap_dlopen_reports_all wrap_dlopen_depth_balanced pre (w0 clk) = (s1, r1, d1) ->
+  run_acts wrap_dlopen_clock_first wrap_dlopen_reports_all wrap_dlopen_depth_balanced (ADlopen base tab deps ctor :: rest) s1 = (st', recs, dls) ->
+  In (mkDl (w_clk s1) base tab) dls /\ (forall d, In d deps -> In (mkDl (w_clk s1) (fst d) (snd d)) dls) /\
+  (forall t a, In (t, a) recs -> w_clk s1 < t) /\ (forall t a, In (t, a) r1 -> t < w_clk s1).
 Proof.
-  change wrap_dlopen_clock_first with true. change wrap_dlopen_reports_all with true.
-  intros base tab deps ctor rest clk c' recs dls H.
-  destruct (load_precedes_all_records true base tab deps ctor rest clk c' recs dls H) as (A & B & C). auto.
+  change wrap_dlopen_clock_first with true. change wrap_dlopen_reports_all with true. change wrap_dlopen_depth_balanced with true.
+  intros pre base tab deps ctor rest clk s1 r1 d1 st' recs dls H1 H2.
+  destruct (load_after_prefix true pre base tab deps ctor rest clk s1 r1 d1 st' recs dls H1 H2) as (A & B & C & D). auto.
 Qed.
 
 (* consequence for the analysis side: such a record is never rejected by the time test of
@@ -198,50 +260,84 @@ Qed.
 (* end to end over the model: a record made by a constructor of a library (wrapper as in the code)
    at an address inside a symbol of that library OR of a dependency mapped with it is resolved to
    that symbol when no library that is listed later claims the address *)
-Lemma ctor_record_resolves : forall outer base tab deps ctor clk c' recs dls s l1 l2 t a x lb ltab,
-  outer_ok outer clk ->
-  run_act true true outer (ADlopen base tab deps ctor) clk = (c', recs, dls) -> In (t, a) recs ->
+Lemma ctor_record_resolves : forall st base tab deps ctor st' recs dls s l1 l2 t a x lb ltab,
+  w_ok st ->
+  run_act true true true (ADlopen base tab deps ctor) st = (st', recs, dls) -> In (t, a) recs ->
   (lb, ltab) = (base, tab) \/ In (lb, ltab) deps ->
-  se_dl s = l1 ++ mkDl (dl_stamp true outer clk) lb ltab :: l2 ->
+  se_dl s = l1 ++ mkDl (dl_stamp true st) lb ltab :: l2 ->
   find_sym ltab ((a - lb) mod W64) = Some x ->
   (forall d', In d' l2 -> dl_hit t a d' = None) ->
   find_dlsym s t a = Some x.
 Proof.
-  intros outer base tab deps ctor clk c' recs dls s l1 l2 t a x lb ltab Ho Hrun Hin Hlib Hs Hx Hl2.
-  destruct (load_precedes_ctor_records _ _ _ _ _ _ _ _ _ _ Ho Hrun) as (_ & _ & Hlt & _).
+  intros st base tab deps ctor st' recs dls s l1 l2 t a x lb ltab Ho Hrun Hin Hlib Hs Hx Hl2.
+  destruct (load_precedes_ctor_records _ _ _ _ _ _ _ _ _ Ho Hrun) as (_ & _ & Hlt & _).
   specialize (Hlt _ _ Hin). cbv zeta in Hlt.
-  apply (dlsym_latest_first s l1 (mkDl (dl_stamp true outer clk) lb ltab) l2 t a x Hs); cbn [d_time d_tab d_base]; [lia | exact Hx | exact Hl2].
+  apply (dlsym_latest_first s l1 (mkDl (dl_stamp true st) lb ltab) l2 t a x Hs); cbn [d_time d_tab d_base]; [lia | exact Hx | exact Hl2].
 Qed.
+
+Definition tab_plugin : symtab := [mkSym 256 64 84 [105;110;105;116]].
+Definition tab_dep : symtab := [mkSym 512 32 84 [100;101;112]].
+Definition tab_other : symtab := [mkSym 256 64 84 [111;116;104;101;114]].
+Definition sess_of (dls : list dlib) : session := mkSess 0 [] 1 1 0 (mkSinfo 0 [] []) (dl_list dls).
 
 (* the order of the two steps in the wrapper matters: with the clock read after real_dlopen() a
    constructor's record predates the DLOP time stamp and the library is skipped for it *)
-Definition tab_plugin : symtab := [mkSym 256 64 84 [105;110;105;116]].
-Definition tab_dep : symtab := [mkSym 512 32 84 [100;101;112]].
 Lemma late_timestamp_refuted :
-  let '(_, recs, dls) := run_act false true None (ADlopen 4096 tab_plugin [] [ARec 4360]) 10 in
-  recs = [(10, 4360)] /\ dls = [mkDl 11 4096 tab_plugin] /\
-  find_dlsym (mkSess 0 [] 1 1 0 (mkSinfo 0 [] []) (dl_list dls)) 10 4360 = None /\
+  let '(_, recs, dls) := run_act false true true (ADlopen 4096 tab_plugin [] [ARec 4360]) (w0 10) in
+  recs = [(11, 4360)] /\ dls = [mkDl 12 4096 tab_plugin] /\
+  find_dlsym (sess_of dls) 11 4360 = None /\
   spec_find tab_plugin (4360 - 4096) = Some (mkSym 256 64 84 [105;110;105;116]).
 Proof. vm_compute. repeat split; reflexivity. Qed.
 
-(* the code as found (name filter in dlopen_base_callback): a dependency mapped by the same
-   dlopen() call gets no DLOP message, the record of its function is not resolved *)
+(* the code as found before 0c4417a (name filter in dlopen_base_callback): a dependency mapped by
+   the same dlopen() call gets no DLOP message, the record of its function is not resolved *)
 Lemma dependency_legacy_refuted :
-  let '(_, recs, dls) := run_act true false None (ADlopen 4096 tab_plugin [(8192, tab_dep)] [ARec 4360; ARec 8710]) 10 in
+  let '(_, recs, dls) := run_act true false true (ADlopen 4096 tab_plugin [(8192, tab_dep)] [ARec 4360; ARec 8710]) (w0 10) in
   recs = [(11, 4360); (12, 8710)] /\ dls = [mkDl 10 4096 tab_plugin] /\
-  find_dlsym (mkSess 0 [] 1 1 0 (mkSinfo 0 [] []) (dl_list dls)) 12 8710 = None /\
+  find_dlsym (sess_of dls) 12 8710 = None /\
   spec_find tab_dep (8710 - 8192) = Some (mkSym 512 32 84 [100;101;112]).
 Proof. vm_compute. repeat split; reflexivity. Qed.
 
-(* ... the fixed code resolves both, also when the dlopen is issued by a constructor of another
-   library that recorded before (outermost time stamp) *)
+(* a wrapper that leaves dlopen_depth raised on the dlopen(NULL) path: every later load of the
+   thread is stamped with the time of that old call; a library loaded later over the range of an
+   unloaded one then claims the records of the first one *)
+Lemma null_path_leak_refuted :
+  let '(st', recs, dls) := run_acts true true false
+      [ADlnull; ADlopen 4096 tab_plugin [] []; ARec 4360; ADlopen 4096 tab_other [] []; ARec 4360] (w0 10) in
+  w_depth st' = 1%nat /\
+  recs = [(12, 4360); (14, 4360)] /\ map d_time dls = [10; 10] /\
+  find_dlsym (sess_of dls) 12 4360 = Some (mkSym 256 64 84 [111;116;104;101;114]) /\
+  spec_find tab_plugin (4360 - 4096) = Some (mkSym 256 64 84 [105;110;105;116]).
+Proof. vm_compute. repeat split; reflexivity. Qed.
+
+(* ... the balanced wrapper dates the two loads by their own calls and each record goes to the
+   library that was loaded at its time *)
+Example null_path_balanced_example :
+  let '(st', recs, dls) := run_acts true true true
+      [ADlnull; ADlnone; ADlopen 4096 tab_plugin [] []; ARec 4360; ADlopen 4096 tab_other [] []; ARec 4360] (w0 10) in
+  w_depth st' = 0%nat /\
+  recs = [(13, 4360); (15, 4360)] /\ map d_time dls = [12; 14] /\
+  find_dlsym (sess_of dls) 13 4360 = Some (mkSym 256 64 84 [105;110;105;116]) /\
+  find_dlsym (sess_of dls) 15 4360 = Some (mkSym 256 64 84 [111;116;104;101;114]).
+Proof. vm_compute. repeat split; reflexivity. Qed.
+
+(* the fixed code resolves dependency and nested cases (outermost time stamp) *)
 Example dependency_fixed_example :
-  let '(_, recs, dls) := run_act true true None
-      (ADlopen 65536 [mkSym 16 16 84 [111]] [] [ARec 65552; ADlopen 4096 tab_plugin [(8192, tab_dep)] [ARec 4360; ARec 8710]]) 10 in
-  let s := mkSess 0 [] 1 1 0 (mkSinfo 0 [] []) (dl_list dls) in
+  let '(_, recs, dls) := run_act true true true
+      (ADlopen 65536 [mkSym 16 16 84 [111]] [] [ARec 65552; ADlopen 4096 tab_plugin [(8192, tab_dep)] [ARec 4360; ARec 8710]]) (w0 10) in
+  let s := sess_of dls in
   recs = [(11, 65552); (13, 4360); (14, 8710)] /\
   map d_time dls = [10; 10; 10] /\
   find_dlsym s 11 65552 = Some (mkSym 16 16 84 [111]) /\
   find_dlsym s 13 4360 = Some (mkSym 256 64 84 [105;110;105;116]) /\
   find_dlsym s 14 8710 = Some (mkSym 512 32 84 [100;101;112]).
 Proof. vm_compute. repeat split; reflexivity. Qed.
+
+(* the code as found before bcf76bf: a library that is closed and opened again was not reported a
+   second time (its map stayed known by name); when another library used the range in between, the
+   newest entry at or before the record is the other library's *)
+Lemma reload_unreported_legacy_refuted :
+  let dls := [mkDl 10 4096 tab_plugin; mkDl 14 4096 tab_other] in      (* A, B; the reload of A at 18 is missing *)
+  find_dlsym (sess_of dls) 20 4360 = Some (mkSym 256 64 84 [111;116;104;101;114]) /\
+  find_dlsym (sess_of (dls ++ [mkDl 18 4096 tab_plugin])) 20 4360 = Some (mkSym 256 64 84 [105;110;105;116]).
+Proof. vm_compute. split; reflexivity. Qed.
